@@ -118,12 +118,17 @@ fn main() {
             write_stats(&format!("{}/stats.json", out), &o.stats, o.snapshots, o.nontrivial, &o.samples);
         }
         "fail" => {
-            let mut o = failrun::Out { oracle: vec![], stats: BTreeMap::new(), samples: vec![], nontrivial: 0, runs: 0 };
+            let mut o = failrun::Out { live: Some(std::fs::OpenOptions::new().create(true).append(true).open(format!("{}/oracle_live.txt", out)).unwrap()), oracle: vec![], stats: BTreeMap::new(), samples: vec![], nontrivial: 0, runs: 0 };
             let mut r = rng::Rng::new(seed);
             let max_steps: u64 = arg(&args, "--steps", "6").parse().unwrap();
             let max_k: u64 = arg(&args, "--maxk", "40").parse().unwrap();
             for i in 0..n {
                 let mut pr = r.fork();
+                if i < start { continue; }
+                {
+                    use std::io::Write;
+                    if let Some(f) = o.live.as_mut() { let _ = writeln!(f, "#HISTORY {}", i); let _ = f.flush(); }
+                }
                 failrun::run_history(&mut pr, &out, i, i % 2 == 1, max_steps, max_k, &mut o);
             }
             write_lines(&format!("{}/oracle.txt", out), &o.oracle);
